@@ -34,7 +34,7 @@ STUB_COMPONENTS = ["leaf processors", "RecordingExecutor", "SimClock/SimUUID", "
 ASSUMPTIONS = ["a rewrite is cosmetic iff yaml.safe_load of both texts is type-strictly equal (dict order ignored; sweep "
                "expressions compared up to +/* operand order)", "equality across worlds only; hashes are not re-implemented"]
 REQUIRED_PROBES = ["reused_pipeline_second_traced_run_with_sweep", "history_contains_failing_run", "fresh_interpreter_other_hashseed",
-                   "world_pair_differs_in_cwd", "rewrite_flow_style", "rewrite_float_spelling", "rewrite_expression_commuted", "with_run_space", "history_contains_type_variant_twin"]
+                   "world_pair_differs_in_cwd", "rewrite_flow_style", "rewrite_float_spelling", "rewrite_expression_commuted", "with_run_space", "history_contains_type_variant_twin", "rewrite_bool_spelling"]
 CONFIG = {
     "quick": {"runs": 640, "budget_s": 240, "timeout_s": 240},
     "thorough": {"runs": 20000, "budget_s": 1700, "timeout_s": 240},
@@ -138,7 +138,15 @@ def rewrite_yaml(cfg: dict, rseed: int, stats: dict) -> tuple[str, dict]:
             stats["probe.rewrite_float_spelling"] = stats.get("probe.rewrite_float_spelling", 0) + 1
         return dumper.represent_scalar("tag:yaml.org,2002:float", text)
 
+    def rep_bool(dumper, value):
+        words = (["true", "True", "TRUE", "yes", "Yes", "on", "On"] if value else ["false", "False", "FALSE", "no", "No", "off", "Off"])
+        w = words[rng.randrange(len(words))] if spell else ("true" if value else "false")
+        if w not in ("true", "false"):
+            stats["probe.rewrite_bool_spelling"] = stats.get("probe.rewrite_bool_spelling", 0) + 1
+        return dumper.represent_scalar("tag:yaml.org,2002:bool", w)
+
     D.add_representer(float, rep_float)
+    D.add_representer(bool, rep_bool)
     # share identical sub-maps so the emitter produces anchors/aliases
     seen: dict[str, object] = {}
 
@@ -225,6 +233,16 @@ def id_record(full_cfg: dict, text: str, ctx: dict, init_data, w, stats: dict) -
     p = harness.make_pipeline(loaded2["pipeline"]["nodes"])
     rec["pipeline_ids"] = {"uuids": [n["node_uuid"] for n in p.canonical_spec["nodes"]],
                            "pipeline_id": compute_pipeline_id(p.canonical_spec)}
+    # library loader on a path that held ANOTHER configuration a moment ago (same name, rewritten within the same second)
+    from semantiva.configurations import load_pipeline_from_yaml
+    other = {"extensions": ["svsim.lib"], "pipeline": {"nodes": [{"processor": "SvSourceDefault"}, {"processor": "SvAddDefault"}]}}
+    with open("same_path.yaml", "w") as f:
+        f.write(yaml.safe_dump(other))
+    load_pipeline_from_yaml("same_path.yaml")
+    with open("same_path.yaml", "w") as f:
+        f.write(text)
+    lp = harness.make_pipeline(list(load_pipeline_from_yaml("same_path.yaml")))
+    rec["loader_ids"] = {"uuids": [n["node_uuid"] for n in lp.canonical_spec["nodes"]], "pipeline_id": compute_pipeline_id(lp.canonical_spec)}
     loaded3 = yaml.safe_load(text)
     sc = {"nodes": loaded3["pipeline"]["nodes"], "context": ctx, "init_data": init_data, "faults": []}
     detail = random.Random(len(text) + len(w.exec_log)).choice(harness.DETAILS)     # identities do not depend on the detail level
@@ -320,8 +338,8 @@ def world_record(sc: dict, wd: dict, seed: int, stats: dict) -> dict:
             os.chdir(wd["cwd"])
         _history(wd["history"], sc, w, stats)
         text, variant = rewrite_yaml(cfg, wd["rewrite"], stats)
-        import yaml
-        if not _strict_eq(yaml.safe_load(text), variant):
+        from ..seams import pristine_load
+        if not _strict_eq(pristine_load(text), variant):
             raise RuntimeError(f"harness: YAML rewrite is not cosmetic\n{text}")
         rec = id_record(cfg, text, sc["A"]["context"], sc["A"]["init_data"], w, stats)
         rec["world"] = {"tz": wd["tz"], "cwd": wd["cwd"], "history": wd["history"]}
@@ -381,6 +399,9 @@ def compare(recs: list[dict]) -> list[dict]:
         pi, pl, tr, ins = r["payload_ids"], r["pipeline_ids"], r["trace_ids"], r["inspect_ids"]
         if pi["uuids"] != pl["uuids"]:
             out.append(oracles.V("paths", "uuids_inspection_vs_pipeline", f"{where}: {pi['uuids']} vs {pl['uuids']}"))
+        if r.get("loader_ids") and r["loader_ids"] != pl:
+            out.append(oracles.V("paths", "load_pipeline_from_yaml_vs_construction", f"{where}: file loaded through load_pipeline_from_yaml gives "
+                                 f"{r['loader_ids']['pipeline_id']} but the same text gives {pl['pipeline_id']}"))
         if ins.get("semantic_id") != pi["semantic_id"] or ins.get("config_id") != pi["config_id"]:
             out.append(oracles.V("paths", "inspect_stdout_vs_payload", f"{where}: {ins} vs {pi['semantic_id']}/{pi['config_id']}"))
         if tr is not None:
